@@ -31,7 +31,7 @@ RULE = (
     "distinct command sequences."
 )
 ASSUMPTIONS = [
-    "ids are not reused while their actor is alive (reuse after stopChild is generated)",
+    "an id re-used while its actor is alive means: the earlier actor is stopped, the new one takes the id",
     "a delayed send whose addressee was stopped and whose id was re-used by a new actor before the delay ran out is not "
     "judged (sync drops it, async delivers it to the new holder; the statement does not say which)",
     "the service key is used as an address only when exactly one child of that service exists or when several auto-id "
@@ -304,9 +304,13 @@ def check_case(case) -> CaseResult:
         elif k == "SPAWN":
             full = "par:" + cmd[1]
             if full in m.actors and m.actors[full]["alive"]:
-                judged = False  # reuse of a live id: the model stops here; the census below still runs
-                left = "live-id-reuse"
-                break
+                # an id re-used while its actor is alive: the earlier actor (and its descendants) is
+                # stopped and leaves the registry, the new one takes the id
+                nontrivial = True
+                m.actors[full]["alive"] = False
+                for s_, a_ in list(m.system.items()):
+                    if a_ == full or a_.startswith(full + ":"):
+                        del m.system[s_]
             if cmd[2] and cmd[2] in m.system and (m.system[cmd[2]] not in m.actors or m.actors[m.system[cmd[2]]]["alive"]):
                 judged = False  # a live systemId is re-registered: unspecified
                 left = "unjudged"
@@ -370,9 +374,12 @@ def check_case(case) -> CaseResult:
             gsys = cmd[2] if len(cmd) > 2 else None
             if tgt is not None:
                 if m.actors[tgt].get("grand"):
-                    judged = False  # the child re-spawns its grandchild under the same (live) id
-                    left = "live-id-reuse"
-                    break
+                    # the child re-spawns its grandchild under the same (live) id: the earlier one
+                    # is stopped first and its systemId goes with it
+                    nontrivial = True
+                    if m.actors[tgt].get("gsys"):
+                        m.system.pop(m.actors[tgt]["gsys"], None)
+                        m.actors[tgt]["gsys"] = None
                 if gsys and gsys in m.system:
                     judged = False  # a live systemId is re-registered: unspecified
                     left = "unjudged"
